@@ -20,7 +20,8 @@ PROOF_MODULES = ['Ladybug.Props.C02']
 GREP_MODULES = ['Ladybug.Py', 'Ladybug.Model.Cal', 'Ladybug.Gen.DtTables', 'Ladybug.Proofs.CalLemmas',
                 'Ladybug.Model.AP', 'Ladybug.Gen.ApTables', 'Ladybug.Proofs.C04Lemmas',
                 'Ladybug.Proofs.C04Listings', 'Ladybug.Props.C08', 'Ladybug.Props.C04',
-                'Ladybug.Model.Filter', 'Ladybug.Proofs.C02Lemmas', 'Ladybug.Proofs.C02Index', 'Ladybug.Proofs.C02Slice',
+                'Ladybug.Model.Filter', 'Ladybug.Proofs.C02Lemmas', 'Ladybug.Proofs.C02Index', 'Ladybug.Proofs.C02Cyclic',
+                'Ladybug.Proofs.C02Slice', 'Ladybug.Proofs.C02Order',
                 'Ladybug.Drv.C02', 'Ladybug.DrvCore']
 RULE = ('sources: annual | partial (1..120 days, boundary-biased starts incl. 28/29 Feb and both year ends) | '
         'year-wrapping (short Dec->Jan and long), all 12 timesteps (annual: small ones), both leap flags, values = '
@@ -34,8 +35,9 @@ RULE = ('sources: annual | partial (1..120 days, boundary-biased starts incl. 28
         'collections by key lists and by period. A case is non-trivial when the implementation returns a '
         'collection; distinct = distinct request line.')
 TRUSTED_BASE = [
-    'the model describes datacollection.py with the four fixes/C02_*.patch applied (year-wrapping continuous '
-    'collections); on a tree without them the check reports the violation',
+    'the model describes datacollection.py with the five fixes/C02_*.patch applied (year-wrapping continuous '
+    'collections; time order of the discontinuous period filter); on a tree without them the check reports the '
+    'violation',
     'modelled, not verified: a collection is the list of (date-time, value) pairs (len(values) == len(datetimes) is '
     'a constructor invariant); a date-time is its minute of the year plus the leap flag of the header (C08 '
     'bijection); values are opaque (free theorem: the filters only move values, checked with position ids)',
@@ -56,22 +58,23 @@ ASSUMPTIONS = [
 ]
 LEVEL_TEXT = ('Machine-checked Lean 4 theorems over an executable, value-polymorphic model of the filters: the slow '
               'search returns exactly the source pairs whose minute is requested, in source order; the index '
-              'arithmetic of continuous collections (non-wrapping and, with the four repairs, year-wrapping; all 12 '
-              'timesteps, both leap flags) returns for every requested minute of the collection the pair at that '
-              'minute, hence the same pairs as the search on the equivalent discontinuous collection; hour-window '
-              'period filters and hour lists reduce to that minute path (pairs at the period steps in the '
-              'period\'s chronological order, header = clipped period); pattern / range / statement / key filters '
-              'keep exactly the satisfying positions. Partial: for whole-day period filters the two slice bounds are '
-              'proved to be the cyclic positions of the filter\'s first step and last hour; the list-level step to '
-              '"element k of the slice is the pair at filter step k" is compared and tested, not proved. '
-              'The model is compared with the real classes on structure-directed inputs on every run.')
+              'arithmetic of continuous collections (non-wrapping and year-wrapping, all 12 timesteps, both leap '
+              'flags) returns for every requested minute of the collection the pair at that minute, hence the same '
+              'pairs as the search on the equivalent discontinuous collection; the whole-day continuous period '
+              'filter (both slice shapes, any source period) returns exactly the run of source pairs at the steps of '
+              'the clipped filter period in its chronological order under that period as header, and the '
+              'constructor\'s length check holds; hour-window period filters and hour lists reduce to the minute '
+              'path; the discontinuous period filter returns the requested pairs in the period\'s time order; '
+              'pattern / range / statement / key filters (daily, monthly, monthly-per-hour, also by period) keep '
+              'exactly the satisfying positions; propagation of validated_a_period. The model is compared with the '
+              'real classes on structure-directed inputs on every run.')
 LEVEL_NOTE = ('Trusted: Lean kernel; axioms propext/Classical.choice/Quot.sound only; the correspondence run '
               '(agreement on generated inputs only); rational model of the float index arithmetic; IEEE part of '
-              'filter_by_hoys isolated as a hypothesis that is checked exhaustively each run. Model and theorems '
-              'describe the code with fixes/C02_*.patch applied. Open finding: the discontinuous period filter '
-              'keeps source order, not the period\'s order, for filters that wrap the year end.')
+              'filter_by_hoys isolated as a hypothesis that is checked exhaustively each run; Python sorted() '
+              'modelled as a stable merge sort. Model and theorems describe the code with the five '
+              'fixes/C02_*.patch applied.')
 TECHNIQUE = ('Lean 4 proof (list induction, arithmetic-progression form of whole-day periods from the C04 theorems, '
-             'case split over the 12 timesteps, omega) about a model tied to datacollection.py by differential '
+             'cyclic-progression lemma for the two slice shapes, case split over the 12 timesteps, omega) about a model tied to datacollection.py by differential '
              'correspondence')
 
 VALID_TS = (1, 2, 3, 4, 5, 6, 10, 12, 15, 20, 30, 60)
@@ -192,11 +195,17 @@ def _ndays_of(c):
     return len(_ref_days(c))
 
 
-def _disc(c, moys, vals=None):
+def _flagged(coll, validated):
+    coll._validated_a_period = bool(validated)      # what from_dict / validate_analysis_period set
+    return coll
+
+
+def _disc(c, moys, vals=None, validated=False):
     from ladybug.datacollection import HourlyDiscontinuousCollection
     from ladybug.dt import DateTime
     dts = [DateTime.from_moy(m, c[7]) for m in moys]
-    return HourlyDiscontinuousCollection(_header(c), list(vals) if vals is not None else list(range(len(moys))), dts)
+    return _flagged(HourlyDiscontinuousCollection(
+        _header(c), list(vals) if vals is not None else list(range(len(moys))), dts), validated)
 
 
 def _disc_of_cont(c):
@@ -208,19 +217,22 @@ def _disc_of_cont(c):
     return _CACHE[key]
 
 
-def _daily(c, doys, vals=None):
+def _daily(c, doys, vals=None, validated=False):
     from ladybug.datacollection import DailyCollection
-    return DailyCollection(_header(c), list(vals) if vals is not None else list(range(len(doys))), list(doys))
+    return _flagged(DailyCollection(
+        _header(c), list(vals) if vals is not None else list(range(len(doys))), list(doys)), validated)
 
 
-def _monthly(c, months, vals=None):
+def _monthly(c, months, vals=None, validated=False):
     from ladybug.datacollection import MonthlyCollection
-    return MonthlyCollection(_header(c), list(vals) if vals is not None else list(range(len(months))), list(months))
+    return _flagged(MonthlyCollection(
+        _header(c), list(vals) if vals is not None else list(range(len(months))), list(months)), validated)
 
 
-def _mph(c, keys):
+def _mph(c, keys, validated=False):
     from ladybug.datacollection import MonthlyPerHourCollection
-    return MonthlyPerHourCollection(_header(c), list(range(len(keys))), [tuple(k) for k in keys])
+    return _flagged(MonthlyPerHourCollection(
+        _header(c), list(range(len(keys))), [tuple(k) for k in keys]), validated)
 
 
 def _ap_fields(ap):
@@ -242,8 +254,8 @@ def _show(coll):
         keys = ['%d %d %d' % tuple(d) for d in coll.datetimes]
     else:
         keys = [str(int(d)) for d in coll.datetimes]
-    return ('ok D %s %d %s' % (apf, len(vals), ' '.join('%s %s' % kv for kv in zip(keys, vals)))).rstrip() + \
-        ('' if vals else ' ')
+    return ('ok D %s %s %d %s' % (apf, _b(coll.validated_a_period), len(vals),
+                                  ' '.join('%s %s' % kv for kv in zip(keys, vals)))).rstrip()
 
 
 def _canon(s):
@@ -487,7 +499,7 @@ def _disc_sources(ctx, rng):
             rng.shuffle(moys)
         if shape == 'repeated' and moys:
             moys = moys + [moys[0], moys[-1]]
-        out.append((c, moys, shape))
+        out.append((c, moys, shape, rng.random() < 0.5))
     return out
 
 
@@ -579,7 +591,7 @@ def correspondence(ctx):
                   _guard(lambda x: _show(_cont(x[0]).filter_by_analysis_period(_mk_ap(x[1])))), canon=_canon)
     small = [x for x in period_cases if _ndays_of(x[0]) * 24 * x[0][6] <= ctx.n(1500, 4000) and _fsteps(x[1]) <= 20000]
     compare_batch(ctx, 'disc_ap', small,
-                  lambda x: 'disc_ap %s %s %s' % (_line_ap(x[0]), _ints(_ref_moys(x[0])), _line_ap(x[1])),
+                  lambda x: 'disc_ap %s 1 %s %s' % (_line_ap(x[0]), _ints(_ref_moys(x[0])), _line_ap(x[1])),
                   _guard(lambda x: _show(_disc_of_cont(x[0]).filter_by_analysis_period(_mk_ap(x[1])))),
                   canon=_canon, key=lambda x: ('d', x[0], x[1]))
     compare_batch(ctx, 'ap_subset', period_cases,
@@ -595,7 +607,7 @@ def correspondence(ctx):
                   _guard(lambda x: _show(_cont(x[0]).filter_by_moys(list(x[1])))), canon=_canon)
     small = [x for x in moy_cases if _ndays_of(x[0]) * 24 * x[0][6] <= ctx.n(1500, 4000)]
     compare_batch(ctx, 'disc_moys', small,
-                  lambda x: 'disc_moys %s %s %s' % (_line_ap(x[0]), _ints(_ref_moys(x[0])), _ints(x[1])),
+                  lambda x: 'disc_moys %s 1 %s %s' % (_line_ap(x[0]), _ints(_ref_moys(x[0])), _ints(x[1])),
                   _guard(lambda x: _show(_disc_of_cont(x[0]).filter_by_moys(tuple(x[1])))), canon=_canon)
 
     # -- hour lists
@@ -607,7 +619,7 @@ def correspondence(ctx):
                   key=lambda x: (x[0], tuple(repr(h) for h in x[1])))
     small = [x for x in hoy_cases if _ndays_of(x[0]) * 24 * x[0][6] <= ctx.n(1500, 4000)]
     compare_batch(ctx, 'disc_hoys', small,
-                  lambda x: 'disc_hoys %s %s %d %s' % (_line_ap(x[0]), _ints(_ref_moys(x[0])), len(x[1]),
+                  lambda x: 'disc_hoys %s 1 %s %d %s' % (_line_ap(x[0]), _ints(_ref_moys(x[0])), len(x[1]),
                                                      ' '.join(_fbits(h) for h in x[1])),
                   _guard(lambda x: _show(_disc_of_cont(x[0]).filter_by_hoys(list(x[1])))), canon=_canon,
                   key=lambda x: ('d', x[0], tuple(repr(h) for h in x[1])))
@@ -630,8 +642,9 @@ def correspondence(ctx):
     # -- discontinuous sources with holes / unsorted steps
     dsrc = _disc_sources(ctx, rng)
     dper, dmoy, dhoy, dpat, dval = [], [], [], [], []
-    for c, moys, shape in dsrc:
+    for c, moys, shape, vflag in dsrc:
         ctx.count('disc_src:' + shape)
+        ctx.count('disc_src_validated:%s' % vflag)
         for _ in range(3):
             a = _doy(c[7], c[0], c[1])
             fa = max(1, a - rng.randrange(0, 3))
@@ -642,37 +655,40 @@ def correspondence(ctx):
                 f = (12, 31, sh, 1, 1, eh, c[6], c[7])
             if rng.random() < 0.08:
                 f = f[:6] + (rng.choice([t for t in VALID_TS if t != c[6]]), c[7])
-            dper.append((c, moys, f))
+            dper.append((c, moys, f, vflag))
         for req, rk in _moy_requests(rng, c, moys, 3):
-            dmoy.append((c, moys, req))
+            dmoy.append((c, moys, req, vflag))
         ms = rng.sample(moys, min(3, len(moys)))
-        dhoy.append((c, moys, [m / 60.0 for m in ms] + ([ms[0] / 60.0 + 0.004] if rng.random() < 0.3 else [])))
+        dhoy.append((c, moys, [m / 60.0 for m in ms] + ([ms[0] / 60.0 + 0.004] if rng.random() < 0.3 else []), vflag))
         plen = rng.choice([0, 1, 2, 5, len(moys), len(moys) + 2])
-        dpat.append((c, moys, [rng.random() < 0.5 for _ in range(plen)]))
+        dpat.append((c, moys, [rng.random() < 0.5 for _ in range(plen)], vflag))
         vals = [rng.randrange(-20, 21) for _ in moys]
-        dval.append(('range', c, moys, vals, (rng.choice([None, -3, 4]), rng.choice([None, 3, 12]))))
+        dval.append(('range', c, moys, vals, (rng.choice([None, -3, 4]), rng.choice([None, 3, 12])), vflag))
         dval.append(('stmt', c, moys, vals, (rng.randrange(4), rng.randrange(-22, 22), rng.randrange(1, 7),
-                                            rng.randrange(0, 3))))
+                                            rng.randrange(0, 3)), vflag))
     compare_batch(ctx, 'disc_ap', dper,
-                  lambda x: 'disc_ap %s %s %s' % (_line_ap(x[0]), _ints(x[1]), _line_ap(x[2])),
-                  _guard(lambda x: _show(_disc(x[0], x[1]).filter_by_analysis_period(_mk_ap(x[2])))), canon=_canon)
+                  lambda x: 'disc_ap %s %s %s %s' % (_line_ap(x[0]), _b(x[3]), _ints(x[1]), _line_ap(x[2])),
+                  _guard(lambda x: _show(_disc(x[0], x[1], None, x[3]).filter_by_analysis_period(_mk_ap(x[2])))),
+                  canon=_canon)
     compare_batch(ctx, 'disc_moys', dmoy,
-                  lambda x: 'disc_moys %s %s %s' % (_line_ap(x[0]), _ints(x[1]), _ints(x[2])),
-                  _guard(lambda x: _show(_disc(x[0], x[1]).filter_by_moys(list(x[2])))), canon=_canon)
+                  lambda x: 'disc_moys %s %s %s %s' % (_line_ap(x[0]), _b(x[3]), _ints(x[1]), _ints(x[2])),
+                  _guard(lambda x: _show(_disc(x[0], x[1], None, x[3]).filter_by_moys(list(x[2])))), canon=_canon)
     compare_batch(ctx, 'disc_hoys', dhoy,
-                  lambda x: 'disc_hoys %s %s %d %s' % (_line_ap(x[0]), _ints(x[1]), len(x[2]),
-                                                     ' '.join(_fbits(h) for h in x[2])),
-                  _guard(lambda x: _show(_disc(x[0], x[1]).filter_by_hoys(list(x[2])))), canon=_canon,
+                  lambda x: 'disc_hoys %s %s %s %d %s' % (_line_ap(x[0]), _b(x[3]), _ints(x[1]), len(x[2]),
+                                                        ' '.join(_fbits(h) for h in x[2])),
+                  _guard(lambda x: _show(_disc(x[0], x[1], None, x[3]).filter_by_hoys(list(x[2])))), canon=_canon,
                   key=lambda x: (x[0], tuple(x[1]), tuple(repr(h) for h in x[2])))
     compare_batch(ctx, 'keyed_pattern', dpat,
-                  lambda x: 'keyed_pattern %s %s %s' % (_line_ap(x[0]), _ints(x[1]), _ints([1 if b else 0 for b in x[2]])),
-                  _guard(lambda x: _show(_disc(x[0], x[1]).filter_by_pattern(list(x[2])))), canon=_canon)
+                  lambda x: 'keyed_pattern %s %s %s %s' % (_line_ap(x[0]), _b(x[3]), _ints(x[1]),
+                                                          _ints([1 if b else 0 for b in x[2]])),
+                  _guard(lambda x: _show(_disc(x[0], x[1], None, x[3]).filter_by_pattern(list(x[2])))), canon=_canon)
     compare_batch(ctx, 'keyed_range', [x for x in dval if x[0] == 'range'],
-                  lambda x: 'keyed_range %s %s %s %s' % (_line_ap(x[1]), _opt(x[4][0]), _opt(x[4][1]), _kv(x[2], x[3])),
-                  _guard(lambda x: _show(_range(_disc(x[1], x[2], x[3]), x[4]))), canon=_canon)
+                  lambda x: 'keyed_range %s %s %s %s %s' % (_line_ap(x[1]), _b(x[5]), _opt(x[4][0]), _opt(x[4][1]),
+                                                           _kv(x[2], x[3])),
+                  _guard(lambda x: _show(_range(_disc(x[1], x[2], x[3], x[5]), x[4]))), canon=_canon)
     compare_batch(ctx, 'keyed_stmt', [x for x in dval if x[0] == 'stmt'],
-                  lambda x: 'keyed_stmt %s %d %d %d %d %s' % ((_line_ap(x[1]),) + x[4] + (_kv(x[2], x[3]),)),
-                  _guard(lambda x: _show(_disc(x[1], x[2], x[3]).filter_by_conditional_statement(
+                  lambda x: 'keyed_stmt %s %s %d %d %d %d %s' % ((_line_ap(x[1]), _b(x[5])) + x[4] + (_kv(x[2], x[3]),)),
+                  _guard(lambda x: _show(_disc(x[1], x[2], x[3], x[5]).filter_by_conditional_statement(
                       STMTS[x[4][0]](*x[4][1:])))), canon=_canon)
 
     # -- daily / monthly / monthly-per-hour collections
@@ -699,29 +715,40 @@ def correspondence(ctx):
         pk.append((hdr, keys, rng.sample(keys, min(len(keys), 3)) + [(13, 0, 0), (months[0], 24, 0)]))
         pa.append((hdr, keys, _rand_period(rng, leap, ts=ts)))
         kp.append((hdr, doys, [rng.random() < 0.5 for _ in range(rng.choice([0, 1, 3, len(doys)]))]))
-    compare_batch(ctx, 'keys', dk, lambda x: 'keys %s %s %s' % (_line_ap(x[0]), _ints(x[1]), _ints(x[2])),
-                  _guard(lambda x: _show(_daily(x[0], x[1]).filter_by_doys(list(x[2])))), canon=_canon,
+    compare_batch(ctx, 'keys', dk, lambda x: 'keys %s %s %s %s' % (_line_ap(x[0]), _vf(x[1]), _ints(x[1]), _ints(x[2])),
+                  _guard(lambda x: _show(_daily(x[0], x[1], None, _vf(x[1]) == '1').filter_by_doys(list(x[2])))), canon=_canon,
                   key=lambda x: ('daily',) + tuple(map(str, x)))
-    compare_batch(ctx, 'daily_ap', da, lambda x: 'daily_ap %s %s %s' % (_line_ap(x[0]), _ints(x[1]), _line_ap(x[2])),
-                  _guard(lambda x: _show(_daily(x[0], x[1]).filter_by_analysis_period(_mk_ap(x[2])))), canon=_canon)
-    compare_batch(ctx, 'keys', mk_, lambda x: 'keys %s %s %s' % (_line_ap(x[0]), _ints(x[1]), _ints(x[2])),
-                  _guard(lambda x: _show(_monthly(x[0], x[1]).filter_by_months(list(x[2])))), canon=_canon,
+    compare_batch(ctx, 'daily_ap', da,
+                  lambda x: 'daily_ap %s %s %s %s' % (_line_ap(x[0]), _vf(x[1]), _ints(x[1]), _line_ap(x[2])),
+                  _guard(lambda x: _show(_daily(x[0], x[1], None, _vf(x[1]) == '1').filter_by_analysis_period(_mk_ap(x[2])))),
+                  canon=_canon)
+    compare_batch(ctx, 'keys', mk_, lambda x: 'keys %s %s %s %s' % (_line_ap(x[0]), _vf(x[1]), _ints(x[1]), _ints(x[2])),
+                  _guard(lambda x: _show(_monthly(x[0], x[1], None, _vf(x[1]) == '1').filter_by_months(list(x[2])))), canon=_canon,
                   key=lambda x: ('monthly',) + tuple(map(str, x)))
     compare_batch(ctx, 'monthly_ap', ma,
-                  lambda x: 'monthly_ap %s %s %s' % (_line_ap(x[0]), _ints(x[1]), _line_ap(x[2])),
-                  _guard(lambda x: _show(_monthly(x[0], x[1]).filter_by_analysis_period(_mk_ap(x[2])))), canon=_canon)
+                  lambda x: 'monthly_ap %s %s %s %s' % (_line_ap(x[0]), _vf(x[1]), _ints(x[1]), _line_ap(x[2])),
+                  _guard(lambda x: _show(_monthly(x[0], x[1], None, _vf(x[1]) == '1').filter_by_analysis_period(_mk_ap(x[2])))),
+                  canon=_canon)
     compare_batch(ctx, 'mph_keys', pk,
-                  lambda x: 'mph_keys %s %s %s' % (_line_ap(x[0]), _triples(x[1]), _triples(x[2])),
-                  _guard(lambda x: _show(_mph(x[0], x[1]).filter_by_months_per_hour([tuple(k) for k in x[2]]))),
+                  lambda x: 'mph_keys %s %s %s %s' % (_line_ap(x[0]), _vf(x[1]), _triples(x[1]), _triples(x[2])),
+                  _guard(lambda x: _show(_mph(x[0], x[1], _vf(x[1]) == '1').filter_by_months_per_hour([tuple(k) for k in x[2]]))),
                   canon=_canon)
     compare_batch(ctx, 'mph_ap', pa,
-                  lambda x: 'mph_ap %s %s %s' % (_line_ap(x[0]), _triples(x[1]), _line_ap(x[2])),
-                  _guard(lambda x: _show(_mph(x[0], x[1]).filter_by_analysis_period(_mk_ap(x[2])))), canon=_canon)
+                  lambda x: 'mph_ap %s %s %s %s' % (_line_ap(x[0]), _vf(x[1]), _triples(x[1]), _line_ap(x[2])),
+                  _guard(lambda x: _show(_mph(x[0], x[1], _vf(x[1]) == '1').filter_by_analysis_period(_mk_ap(x[2])))),
+                  canon=_canon)
     compare_batch(ctx, 'keyed_pattern', kp,
-                  lambda x: 'keyed_pattern %s %s %s' % (_line_ap(x[0]), _ints(x[1]), _ints([1 if b else 0 for b in x[2]])),
-                  _guard(lambda x: _show(_daily(x[0], x[1]).filter_by_pattern(list(x[2])))), canon=_canon,
+                  lambda x: 'keyed_pattern %s %s %s %s' % (_line_ap(x[0]), _vf(x[1]), _ints(x[1]),
+                                                          _ints([1 if b else 0 for b in x[2]])),
+                  _guard(lambda x: _show(_daily(x[0], x[1], None, _vf(x[1]) == '1').filter_by_pattern(list(x[2])))), canon=_canon,
                   key=lambda x: ('daily',) + tuple(map(str, x)))
     _CACHE.clear()
+
+
+def _vf(keys):
+    """validated_a_period flag given to a keyed source: parity of its first key (both values occur)."""
+    k = keys[0]
+    return _b((k[1] if isinstance(k, (tuple, list)) else k) % 2 == 1)
 
 
 def _opt(v):
@@ -998,7 +1025,7 @@ CORPUS = [
     ('hoys', {'src': [1, 1, 0, 1, 1, 23, 60, False], 'path': 'both', 'req': [123, 245, 247, 1439]}),
     ('period', {'src': [1, 1, 0, 12, 31, 23, 1, False], 'path': 'cont', 'fkind': 'straddle',
                 'filter': [12, 31, 0, 1, 1, 23, 1, False]}),
-    # open finding C02-disc-period-order: the search keeps source order for a wrapping filter
+    # repaired C02-disc-period-order: a wrapping filter on the search path answers in the period's order
     ('period', {'src': [1, 1, 0, 12, 31, 23, 1, False], 'path': 'disc', 'fkind': 'straddle',
                 'filter': [12, 31, 0, 1, 1, 23, 1, False]}),
     ('period', {'src': [3, 1, 0, 3, 31, 23, 2, False], 'path': 'cont', 'fkind': 'clip-end',
